@@ -329,6 +329,39 @@ def rect_corner_lurker(rng, ring):
     return None
 
 
+def rect_boundary_runner(rng, ring):
+    """a line (or multi-line) lying entirely IN the rectangle's boundary: pieces of one edge or running round corners, with
+    consecutive repeated vertices (valid lines) on any edge. contains / covers differ on it (boundary only), and the
+    rectangle short-cuts treat it edge by edge."""
+    edges = [(ring[i], ring[i + 1]) for i in range(4)]
+    def on_edge(e, t_num, t_den):
+        (ax, ay), (bx, by) = e
+        return (ax + (bx - ax) * t_num // t_den, ay + (by - ay) * t_num // t_den)
+    lines = []
+    for _ in range(rng.randint(1, 2)):
+        k = rng.randrange(4)
+        pts = []
+        den = 4
+        a, b = sorted(rng.sample(range(0, den + 1), 2))
+        for t in range(a, b + 1):
+            q = on_edge(edges[k], t, den)
+            if not pts or pts[-1] != q:
+                pts.append(q)
+        if rng.random() < 0.3 and b == den:          # run round the corner onto the next edge
+            q = on_edge(edges[(k + 1) % 4], rng.randint(1, den), den)
+            if q != pts[-1]:
+                pts.append(q)
+        if len(pts) < 2:
+            continue
+        # repeated vertices (still a valid line)
+        for _ in range(rng.randint(0, 2)):
+            i = rng.randrange(len(pts)); pts = pts[:i + 1] + [pts[i]] + pts[i + 1:]
+        lines.append(('LineString', pts))
+    if not lines:
+        return None
+    return lines[0] if len(lines) == 1 else ('MultiLineString', lines)
+
+
 def rect_pairs(rng):
     """axis-parallel rectangle vs the same polygon with one redundant collinear vertex: every answer must coincide"""
     x0, y0 = rng.randint(-50, 50), rng.randint(-50, 50)
@@ -344,7 +377,7 @@ def rect_pairs(rng):
     mid = ((a[0] + b[0]) / 2 if (a[0] + b[0]) % 2 else (a[0] + b[0]) // 2, (a[1] + b[1]) / 2 if (a[1] + b[1]) % 2 else (a[1] + b[1]) // 2)
     ring2 = [ring[0], mid] + ring[1:]
     k = rng.random()
-    other = rect_edge_crosser(rng, ring) if k < 0.4 else rect_corner_lurker(rng, ring) if k < 0.6 else None
+    other = rect_edge_crosser(rng, ring) if k < 0.35 else rect_corner_lurker(rng, ring) if k < 0.5 else rect_boundary_runner(rng, ring) if k < 0.65 else None
     if other is None:
         other = G.derive(rng, ('Polygon', [ring]), max(w, h)) if rng.random() < 0.7 else G.gen_geom(rng, 40)
     R1 = G.map_coords(('Polygon', [ring]), f); R2 = G.map_coords(('Polygon', [ring2]), f)
